@@ -111,8 +111,8 @@ def load_known(pid):
     if os.path.exists(p):
         for line in open(p):
             line = line.strip()
-            if not line or line.startswith("#"):
-                continue
+            if not line.startswith("{"):
+                continue        # `fixed: …` records and comments
             d = json.loads(line)
             if d.get("property") == pid and d.get("status", "open") == "open":
                 out.append(d)
